@@ -164,6 +164,7 @@ class Campaign:
         self.known_hits = []
         self.nonrepro = []
         self.notes = []
+        self.broken = False
         self.stats = {}           # harness -> merged dict
         self.hashes = {}          # harness -> set
         self.t0 = time.time()
@@ -247,9 +248,13 @@ class Campaign:
             h["_schema"] = schema
             nvar = len(schema["variants"])
             k = alloc[name]
-            total_cases = h[self.tier]
+            total_cases = h.get(self.tier, 0)
             per = max(1, total_cases // k)
-            for j in range(k):
+            for xi, xargs in enumerate(h.get("extra", {}).get(self.tier, [])):
+                jobs.append({"harness": name, "binary": binary, "j": 1000 + xi, "cpu": cpu % NCPU, "cases": 1, "variants": [0], "restart": 0, "done": 0,
+                             "extra": [str(x) for x in xargs]})
+                cpu += 1
+            for j in range(k if total_cases > 0 else 0):
                 if nvar >= k:
                     vs = [v for v in range(nvar) if v % k == (j + self.seed) % k]
                 else:
@@ -269,6 +274,8 @@ class Campaign:
             s = sub_seed(self.seed, self.pid, job["harness"], job["j"], job["restart"])
             cmd = ["taskset", "-c", str(job["cpu"]), job["binary"], "--cases", str(job["cases"] - job["done"]), "--seed", str(s),
                    "--tier", self.tier, "--out", prefix, "--variants", ",".join(str(v) for v in job["variants"])]
+            if job.get("extra") is not None:
+                cmd += ["--extra"] + job["extra"]
             job["log"] = open(prefix + ".log", "w")
             job["proc"] = subprocess.Popen(cmd, stdout=job["log"], stderr=subprocess.STDOUT, env=env)
             job["t0"] = time.time()
@@ -300,8 +307,15 @@ class Campaign:
                     done = st.get("evaluations", 0) if st else 0
                     job["done"] += max(1, done)
                     job["restart"] += 1
-                    if job["done"] < job["cases"] and job["restart"] < 50:
+                    if job["done"] < job["cases"] and job["restart"] < 50 and job.get("extra") is None:
                         pending.append(job)
+                    continue
+                if job.get("extra") is not None:
+                    if os.path.exists(job["prefix"] + ".failing.case"):
+                        self.triage(job["harness"], job["binary"], job["prefix"] + ".failing.case", "enumeration falsified")
+                    else:
+                        self.notes.append("%s extra job %s exited rc=%s without a failing case: %s" % (job["harness"], job["extra"], rc, failure_signature(out)))
+                        self.broken = True
                     continue
                 if rc == 1 and "FALSIFIED" in out or (rc == 1 and os.path.exists(job["prefix"] + ".failing.case") and "Falsifiable" in out):
                     self.triage(job["harness"], job["binary"], job["prefix"] + ".failing.case", "rapidcheck falsified")
@@ -373,7 +387,8 @@ class Campaign:
             return
         m = self.stats.setdefault(harness, {"evaluations": 0, "shrink_evaluations": 0, "pass": 0, "fail": 0, "inconclusive": 0, "rejected": 0,
                                             "nontrivial": 0, "points": 0, "switches": 0, "preemptions": 0, "classes": {},
-                                            "per_variant": {}, "per_variant_nontrivial": {}, "samples": [], "engines": {}, "inconclusive_samples": []})
+                                            "per_variant": {}, "per_variant_nontrivial": {}, "samples": [], "engines": {}, "inconclusive_samples": [],
+                                            "exhaustive_domains": []})
         for k in ("evaluations", "shrink_evaluations", "pass", "fail", "inconclusive", "rejected", "nontrivial", "points", "switches", "preemptions"):
             m[k] += st.get(k, 0)
         for dk in ("classes", "per_variant", "per_variant_nontrivial"):
@@ -383,6 +398,9 @@ class Campaign:
         for s in st.get("samples", []):
             if len(m["samples"]) < 4:
                 m["samples"].append(s)
+        for d in st.get("exhaustive_domains", []):
+            if d not in m["exhaustive_domains"]:
+                m["exhaustive_domains"].append(d)
         inc = prefix + ".inconclusive.case"
         if os.path.exists(inc) and len(m["inconclusive_samples"]) < 2:
             m["inconclusive_samples"].append(open(inc).read() + "# " + st.get("abort_note", ""))
@@ -435,6 +453,7 @@ class Campaign:
                 "scheduling_points": m["points"], "token_switches": m["switches"], "preemptive_switches": m["preemptions"],
                 "classes": m["classes"], "per_variant": pv, "per_variant_nontrivial": pvn, "engines": m["engines"],
                 "nontrivial_rule": schema.get("rule", ""), "inconclusive_samples": m["inconclusive_samples"],
+                "exhaustive_subdomains": m["exhaustive_domains"],
             }
         rule = spec.get("rule", "")
         if not rule:
@@ -484,6 +503,9 @@ class Campaign:
             self.pid, self.tier, self.seed, evaluations, distinct, inconclusive, len(seen), time.time() - self.t0))
         if self.violations:
             return 1
+        if self.broken:
+            log("CHECK-BROKEN property=%s: %s" % (self.pid, "; ".join(self.notes)))
+            return 2
         if evaluations == 0 or distinct < 2:
             log("CHECK-DEGENERATE property=%s: generator produced no non-trivial cases" % self.pid)
             return 2
